@@ -40,6 +40,16 @@ def constructed(rng):
             yield E.AddExpression(cls(C(3), col), E.MultiplyExpression(V("x"), cls(C(2), col)))
             yield cls(cls(C(4), col), not col)
     yield E.AddExpression(V("x"), V("x"))
+    # the same operand OBJECT passed for both sides of one operator (x = Variable("x"); Multiply(x, x)):
+    # prints, evaluates and clones like the tree it unfolds to
+    x = V("x")
+    yield E.MultiplyExpression(x, x)
+    x = V("x")
+    yield E.AddExpression(E.MultiplyExpression(x, x), C(1))
+    t = E.MultiplyExpression(C(2), V("y"))
+    yield E.AddExpression(t, t)
+    t = E.PowerExpression(V("z"), C(2))
+    yield E.SubtractExpression(E.NegateExpression(t), E.AddExpression(t, C(3))) if False else E.DivideExpression(t, t)
     yield E.AddExpression(E.AddExpression(V("x"), V("x")), E.AddExpression(V("x"), V("x")))
     yield E.MultiplyExpression(C(np.float64(2.5)), E.PowerExpression(V("y"), C(2)))
     yield E.SubtractExpression(C(2 ** 70), C(0.1))
